@@ -17,6 +17,9 @@ R17.6 each identifier is stored once however the file is cut into blocks: in _db
 R17.7 every table is queried with the caller's conditions: inside a loop over the db's tables, the keyword mapping that is passed on (`**mapping`) is not ...
 R17.8 GFF record identity: the patterns that extract the ID and Parent of a row match the key only where an attribute begins (start of the column or after ...
 R17.9 transaction discipline of the annotation dbs: every data-changing statement sent through the raw connection (self.db.execute / executemany of INSERT ...
+R17.11 from_dict drops the serialised `source` before building the db that receives the records.
+R17.12 the GenBank loader iterates over every parsed record.
+R17.13 the per-table loop of the aggregate methods has no return/break: every table is visited.
 """
 
 from __future__ import annotations
@@ -273,7 +276,13 @@ ROW_BUILDERS = [
     "SqliteAnnotationDbMixin.add_feature",
     "GffAnnotationDb.add_records",
     "GenbankAnnotationDb.add_records",
+    "BasicAnnotationDb.add_records",
 ]
+
+
+ROW_PASS_THROUGH = {
+    "SqliteAnnotationDbMixin._update_db_from_rich_dict": "re-inserts rows produced by to_rich_dict, which emits every non-null column of the stored row (start/stop included)",
+}
 
 
 def _target_name(t):
@@ -288,6 +297,26 @@ def _target_name(t):
 def r17_3(chk):
     chk.rule("R17.3", "whenever `spans` is stored, `start`/`stop` are stored as min/max of the same spans: in every row builder and in every SQL UPDATE")
     m = chk.repo.module(DB)
+    # coverage: every function of the module that stores `spans` and inserts rows is a row builder
+    found = set()
+    for fnode, q in m.qual.items():
+        if not isinstance(fnode, (ast.FunctionDef, ast.AsyncFunctionDef)):
+            continue
+        stores = any(isinstance(st, ast.Assign) and len(st.targets) == 1 and _target_name(st.targets[0])[0] == "spans" for st in walk_no_nested(fnode))
+        inserts = any(isinstance(c, ast.Call) and (call_name(c) or "").split(".")[-1] == "_add_record_sql" for c in walk_no_nested(fnode)) or any(re.match(r"\s*INSERT\s+INTO", s_, re.I) for _, s_ in all_strings(fnode))
+        if stores and inserts:
+            found.add(q)
+    # pass-through of rows that were read from a table: the serialised row carries the stored extremes
+    for q, why in ROW_PASS_THROUGH.items():
+        found.discard(q)
+        src = m.func("SqliteAnnotationDbMixin.to_rich_dict")
+        calls = [c for c in walk_no_nested(src) if isinstance(c, ast.Call) and (call_name(c) or "").endswith("_get_records_matching")]
+        whole = bool(calls) and all(not any(kw.arg in ("columns", None) for kw in c.keywords) for c in calls)
+        comps = [c for c in walk_no_nested(src) if isinstance(c, ast.DictComp)]
+        filt = all(norm(i) == "v is not None" for c in comps for g in c.generators for i in g.ifs)
+        chk.decide(whole and filt, "R17.3", key(m, q, "re-inserted rows were serialised whole"), m.loc(src), why, "to_rich_dict no longer serialises whole rows (column selection or a filter other than `v is not None`): the rows re-inserted by _update_db_from_rich_dict may lack start/stop")
+    for q in sorted(found - set(ROW_BUILDERS)):
+        chk.violation("R17.3", key(m, q, "row builder not in the audited table"), m.loc(m.func(q)), f"{q} stores `spans` and inserts rows but is not one of the audited row builders {ROW_BUILDERS}: its records may reach the table without start/stop")
     for q in ROW_BUILDERS:
         fn = m.func(q)
         assigns = {}
@@ -334,7 +363,7 @@ def r17_3(chk):
                 chk.decide({"start", "stop"} <= set(cols), "R17.3", k, mod.loc(node), "spans, start and stop updated together", f"UPDATE writes spans but not {sorted({'start', 'stop'} - set(cols))}: window queries keep using the stale extremes")
             else:
                 chk.ok("R17.3", k, mod.loc(node), "does not write spans", nontrivial=False)
-    chk.floor("R17.3", 4, "3 row builders + at least one UPDATE statement")
+    chk.floor("R17.3", 5, "4 row builders + at least one UPDATE statement")
 
 
 def _enclosing(mod, node):
@@ -698,7 +727,69 @@ def r17_13(chk):
     chk.floor("R17.13", 6, "aggregate methods with a table loop")
 
 
+# ---------------------------------------------------------------- R17.14
+def _dict_keys_const(e):
+    """set of constant keys when `e` can only be a dict literal (or a choice of them), else None"""
+    if isinstance(e, ast.Dict):
+        ks = set()
+        for k_ in e.keys:
+            if k_ is None:
+                return None
+            if isinstance(k_, ast.Constant):
+                ks.add(k_.value)
+            elif isinstance(k_, ast.Name):
+                ks.add(f"<{k_.id}>")  # a column chosen by the caller of a private helper
+            else:
+                return None
+        return ks
+    if isinstance(e, ast.IfExp):
+        a, b = _dict_keys_const(e.body), _dict_keys_const(e.orelse)
+        return None if a is None or b is None else a | b
+    return None
+
+
+def _wraps_attributes(fn, name):
+    for st in walk_no_nested(fn):
+        if isinstance(st, ast.Assign) and len(st.targets) == 1 and isinstance(st.targets[0], ast.Subscript) and norm(st.targets[0].value) == name and isinstance(st.targets[0].slice, ast.Constant) and st.targets[0].slice.value == "attributes" and isinstance(st.value, ast.JoinedStr):
+            parts = st.value.values
+            if parts and isinstance(parts[0], ast.Constant) and str(parts[0].value).startswith("%") and isinstance(parts[-1], ast.Constant) and str(parts[-1].value).endswith("%"):
+                return st
+    return None
+
+
+def r17_14(chk):
+    chk.rule("R17.14", "one meaning of an `attributes` condition: the text column is searched for the given fragment, so every function that hands a condition mapping which can carry `attributes` to an SQL builder (_select_records_sql / _count_records_sql) wraps it as %fragment% first -- a count that matches exactly while the query matches fragments disagrees with the records returned")
+    m = chk.repo.module(DB)
+    n = 0
+    for fnode, q in m.qual.items():
+        if not isinstance(fnode, (ast.FunctionDef, ast.AsyncFunctionDef)):
+            continue
+        for c in walk_no_nested(fnode):
+            if not (isinstance(c, ast.Call) and (call_name(c) or "").split(".")[-1] in ("_select_records_sql", "_count_records_sql")):
+                continue
+            cond = next((kw.value for kw in c.keywords if kw.arg == "conditions"), c.args[1] if len(c.args) > 1 else None)
+            if cond is None:
+                raise AnalysisError(f"{q}: SQL builder called without conditions")
+            n += 1
+            k = key(m, q, f"attributes condition reaching {(call_name(c) or '').split('.')[-1]}")
+            exprs = [cond]
+            if isinstance(cond, ast.Name):
+                exprs = [st.value for st in walk_no_nested(fnode) if isinstance(st, ast.Assign) and any(isinstance(t, ast.Name) and t.id == cond.id for t in st.targets)]
+            keysets = [_dict_keys_const(e) for e in exprs]
+            if exprs and all(ks is not None for ks in keysets):
+                ks = set().union(*keysets)
+                chk.decide("attributes" not in ks, "R17.14", k, m.loc(c), f"conditions built from the fixed keys {sorted(ks)}", "a literal `attributes` condition is passed without the fragment wrapping")
+                continue
+            if not isinstance(cond, ast.Name):
+                chk.unresolved("R17.14", k, m.loc(c), f"conditions expression {norm(cond)} not understood")
+                continue
+            w = _wraps_attributes(fnode, cond.id)
+            chk.decide(w is not None and w.lineno < c.lineno, "R17.14", k, m.loc(c), f"`{cond.id}['attributes']` wrapped as %...% before the call", f"`{cond.id}` can carry the caller's `attributes` value but reaches the SQL builder unwrapped: this function matches the whole column (=) where get_features_matching matches a fragment (LIKE %..%), e.g. num_matches(attributes='Hello') == 0 while get_features_matching(attributes='Hello') yields the record")
+    chk.floor("R17.14", 4, "four SQL-builder call sites")
+
+
 def run(chk):
+    r17_14(chk)
     r17_13(chk)
     r17_12(chk)
     r17_11(chk)
